@@ -144,8 +144,8 @@ func (h *H) evalFault(c *core.Case, s *Scenario, dir, world string, r *run) {
 		mustFail = goodOK
 	case "none", "stdout":
 	case "badflag":
-		// placed where the -stub flag would go: in front of the source directory and the interface arguments
-		cfg.BoolForm = map[string]string{"stub": s.BadArg}
+		// the last thing before the source directory and the interface arguments (everything before it parses)
+		cfg.LastFlags = []string{s.BadArg}
 		mustFail = true
 	case "noargs":
 		cfg.RawArgv = []string{}
